@@ -1,6 +1,7 @@
 package tlh
 
 import (
+	"fmt"
 	"math"
 	"math/big"
 	"reflect"
@@ -118,8 +119,55 @@ func (g *Gen) strLen() int {
 	}
 }
 
+// SpareLen / SpareByte: every byte string the generator builds is a sub-slice of a longer array whose remaining bytes
+// (the slice's spare capacity) hold SpareByte - memory of the caller that lies behind the value, as when two fields are
+// cut out of one receive buffer. Nothing the library does with the value may change it (SpareIntact).
+const (
+	SpareLen  = 6
+	SpareByte = 0xc3
+)
+
+// SpareIntact walks a generated value and reports the first byte string whose spare capacity was written to.
+func SpareIntact(v reflect.Value) (bool, string) {
+	switch v.Kind() {
+	case reflect.Ptr, reflect.Interface:
+		if v.IsNil() {
+			return true, ""
+		}
+		return SpareIntact(v.Elem())
+	case reflect.Struct:
+		for i := 0; i < v.NumField(); i++ {
+			if ok, where := SpareIntact(v.Field(i)); !ok {
+				return false, v.Type().Field(i).Name + "." + where
+			}
+		}
+	case reflect.Slice:
+		if v.Type().Elem().Kind() == reflect.Uint8 {
+			if v.Cap() >= v.Len()+SpareLen {
+				all := v.Slice3(0, v.Len()+SpareLen, v.Len()+SpareLen)
+				for i := v.Len(); i < v.Len()+SpareLen; i++ {
+					if all.Index(i).Uint() != SpareByte {
+						return false, fmt.Sprintf("[]byte(len %d): byte %d behind the slice is %#x", v.Len(), i-v.Len(), all.Index(i).Uint())
+					}
+				}
+			}
+			return true, ""
+		}
+		for i := 0; i < v.Len(); i++ {
+			if ok, where := SpareIntact(v.Index(i)); !ok {
+				return false, fmt.Sprintf("[%d].%s", i, where)
+			}
+		}
+	}
+	return true, ""
+}
+
 func (g *Gen) bytesN(n int) []byte {
-	b := make([]byte, n)
+	full := make([]byte, n+SpareLen)
+	for i := n; i < len(full); i++ {
+		full[i] = SpareByte
+	}
+	b := full[:n]
 	switch g.R.Intn(4) {
 	case 0: // zeros
 	case 1:
